@@ -363,9 +363,20 @@ def run_check(prop: str, tier: str, master: int, budget: float, jobs: int, max_r
             small, evals = shrink(mod, v["plan"], kind, known)
             r = _fails_same(mod, small, kind, known)
             if not r:
-                print(f"HARNESS-ERROR property={prop} violation kind={kind} seed={v['seed']} did not reproduce "
-                      f"in-process")
-                rc = 2
+                # The worker saw it, this process does not: the failure depends on something outside the plan
+                # (in practice: object addresses / allocator state, e.g. code keyed on id()). It is still a
+                # violation that was observed; report it with the unshrunk plan and say that it is unstable.
+                path = write_replay(prop, v["plan"], {**v["violation"], "detail": {**v["violation"]["detail"],
+                                    "unstable": "observed in a worker, not reproduced when re-run: depends on "
+                                                "process state outside the plan (e.g. object addresses)"}},
+                                    v["digest"], orig_steps)
+                print(f"UNSTABLE-REPLAY property={prop} kind={kind} seed={v['seed']}: observed once, not reproduced "
+                      f"in-process; reporting the unshrunk plan")
+                print(f"violation kind={kind} seed={v['seed']} steps {orig_steps}->{orig_steps} (not shrunk) "
+                      f"detail={json.dumps(v['violation']['detail'], default=repr)[:600]}")
+                print(f"VIOLATION property={prop} replay={path}")
+                replay_paths.append(path)
+                rc = 1 if rc == 0 else rc
                 continue
             res, viol = r
             path = write_replay(prop, small, viol, res.digest, orig_steps)
@@ -376,8 +387,13 @@ def run_check(prop: str, tier: str, master: int, budget: float, jobs: int, max_r
                 replay_paths.append(path)
                 rc = 1 if rc == 0 else rc
             else:
-                print(f"HARNESS-ERROR property={prop} replay {path} did not reproduce in a fresh interpreter")
-                rc = 2
+                print(f"UNSTABLE-REPLAY property={prop} kind={kind}: reproduced in-process but not in a fresh interpreter "
+                      f"(depends on process state outside the plan)")
+                print(f"violation kind={kind} seed={v['seed']} steps {orig_steps}->{len(small.get('steps', []))} "
+                      f"detail={json.dumps(viol['detail'], default=repr)[:600]}")
+                print(f"VIOLATION property={prop} replay={path}")
+                replay_paths.append(path)
+                rc = 1 if rc == 0 else rc
     wall = time.time() - t0
     write_evidence(prop, tier, master, mod, agg, distinct, samples, wall, explore_wall, len(replay_paths),
                    known_hits, jobs)
